@@ -209,12 +209,12 @@ struct Alpha {
 fn alphabets(tier: Tier) -> Alpha {
     match tier {
         Tier::Thorough => Alpha {
-            as_of_s: vec![-2_100_000_000, -1, 0, 1, 1000, 2_100_000_000],
-            as_of_ns: vec![0, 1, 999, 1000, 1001, 500_000_000, 999_999_999],
+            as_of_s: vec![-2_100_000_000, -86_400, -1, 0, 1, 1000, 5000, 1_700_000_000, 2_100_000_000],
+            as_of_ns: vec![0, 1, 999, 1000, 1001, 4_000_000, 500_000_000, 999_999_000, 999_999_999],
             v_kinds: vec![0, 1, 2],
-            bounds: vec![0, 1, 10_000, 77_000_001, 1 << 40, (1 << 60) - 1],
-            drifts: vec![0, 1, 10, 1000, 50_000, 999_999_999, 1_000_000_000, 2_000_000_000, u32::MAX],
-            reals: vec![ts_ns(1_700_000_000, 0), ts_ns(1_700_000_000, 999_999_999), ts_ns(-1_000_000, 5), ts_ns(2_100_000_000, 123_456_789)],
+            bounds: vec![0, 1, 999, 10_000, 77_000_001, 999_999_999, 1_000_000_000, 1 << 40, 1 << 53, (1 << 60) - 1],
+            drifts: vec![0, 1, 7, 10, 999, 1000, 50_000, 500_000, 1_000_000, 999_999_999, 1_000_000_000, 2_000_000_000, u32::MAX],
+            reals: vec![ts_ns(1_700_000_000, 0), ts_ns(1_700_000_000, 999_999_999), ts_ns(-1_000_000, 5), ts_ns(0, 0), ts_ns(2_100_000_000, 123_456_789)],
         },
         Tier::Quick => Alpha {
             as_of_s: vec![-2_100_000_000, -1, 0, 1000, 2_100_000_000],
@@ -236,6 +236,31 @@ fn void_after(kind: u8, as_of_s: i64, as_of_ns: i64) -> (i64, i64) {
 }
 
 /// Ages (monotonic reading minus as-of), sorted ascending, for a record with the given V.
+fn ages_tier(v_ns: i128, blur: i128, tier: Tier) -> Vec<i128> {
+    let mut a = ages(v_ns, blur);
+    if tier == Tier::Thorough {
+        // dense windows around every comparison point of the code, and a geometric sweep of ages
+        for centre in [-blur, 0, 5 * S, v_ns] {
+            for d in -40..=40i128 {
+                a.push(centre + d);
+            }
+        }
+        let mut x: i128 = 2;
+        while x < 2_144_000_000 * S {
+            a.push(x - 1);
+            a.push(x);
+            a.push(x + 1);
+            x *= 2;
+        }
+        for k in [3600i128, 36_000, 86_400, 864_000, 31_536_000, 315_360_000] {
+            a.push(k * S);
+        }
+        a.sort();
+        a.dedup();
+    }
+    a
+}
+
 fn ages(v_ns: i128, blur: i128) -> Vec<i128> {
     let mut a: Vec<i128> = vec![
         -4 * S, -1_000_000, -1001, -1000, -999, -1, 0, 1, 999, 1000, 1_000_000, 300_000_000, S - 1, S, 2 * S, 5 * S - 1, 5 * S, 5 * S + 1, 999 * S,
@@ -452,6 +477,7 @@ pub fn run(ctx: &Ctx) -> i32 {
 
     let n_as_of = al.as_of_s.len() * al.as_of_ns.len();
     let scratch = ctx.scratch();
+    let tier = ctx.tier;
     let results: Vec<(Sink, Stats, Vec<Value>)> = par::map(n_as_of, |idx| {
         let mut sink = Sink::new();
         let mut st = Stats::default();
@@ -464,7 +490,7 @@ pub fn run(ctx: &Ctx) -> i32 {
         for &vk in &al.v_kinds {
             let (va_s, va_ns) = void_after(vk, as_of_s, as_of_ns);
             let v = ts_ns(va_s, va_ns) - as_of;
-            let ages = ages(v, blur);
+            let ages = ages_tier(v, blur, tier);
             for &bound in &al.bounds {
                 for &drift in &al.drifts {
                     for status in 0..3u32 {
@@ -492,7 +518,7 @@ pub fn run(ctx: &Ctx) -> i32 {
                                 }
                                 k += 1;
                                 // reduced grid through the client library over a real segment
-                                if k % 7 == 0 {
+                                if k % (if tier == Tier::Thorough { 101 } else { 7 }) == 0 {
                                     let obs2 = client.eval(&c, None);
                                     st.client_route += 1;
                                     if obs2 != obs {
